@@ -316,7 +316,8 @@ def gen_case(rng, dev):
         else:
             q = rng.random()
             if q < 0.75:
-                t = str(rng.randrange(added))
+                # any number given out so far; in long histories mostly a recent one (two-digit numbers)
+                t = str(rng.randrange(added) if added <= 10 or rng.random() < 0.4 else rng.randrange(10, added))
             elif q < 0.85:
                 t = str(added + rng.choice([0, 0, 1, 5]))          # == len: IndexError; > len: TypeError
             else:
@@ -394,6 +395,11 @@ class BpOracle(object):
                 return 'address $%x refused as present although it is not active' % int(m.group(1))
             return None
         if h['k'] == 'db':
+            t = (h.get('toks') or [''])[0]
+            if re.fullmatch(r'[0-9]+', t) and int(t) in self.active and not re.match(r'removed:%d$' % int(t), out):
+                # breakpoint numbers are handed out, listed and reported in decimal: `delete_breakpoint n` for an
+                # active n must remove n (seeded change C17-6 read the number in the monitor's default radix)
+                return 'delete_breakpoint %s did not remove the active breakpoint %d (outcome %r)' % (t, int(t), out[:80])
             m = re.match(r'removed:(\d+)$', out)
             if m:
                 n = int(m.group(1))
